@@ -72,7 +72,7 @@ PROPS['C16'] = dict(
     kani_functions=['src/section/hit_objects/slider/curve.rs :: fn calculate_length'],
     explanation='see level_text; per-obligation statements in coverage.samples[].states',
     trusted_base=_CURVE_TRUST, assumptions=['requested length finite and > 0 (L <= 0 and non-finite L are outside the statement)', 'unit cat: machine arithmetic treated as mathematical -- f64 `+` and `-` are total and exact on the reals (five admitted axioms, listed in trusted_base); distances are an uninterpreted function of the two points'],
-    not_decided=['numeric facts (never decrease, finite) on paths longer than the bound', 'float rounding in the Catmull surplus (the conservation law is proved over idealised arithmetic)', 'the cut point is interpolated on the segment it falls in (value of the re-projected end vertex: float products)'],
+    not_decided=['approximate_linear appends exactly its points (it is a stand-in in the Verus units; seed C16-linear-segments-deduplicated is missed)', 'numeric facts (never decrease, finite) on paths longer than the bound', 'float rounding in the Catmull surplus (the conservation law is proved over idealised arithmetic)', 'the cut point is interpolated on the segment it falls in (value of the re-projected end vertex: float products)'],
 )
 
 PROPS['C18'] = dict(
@@ -173,7 +173,7 @@ PROPS['C20'] = dict(
                     'src/section/hit_objects/slider/event.rs :: fn generate_ticks', 'src/section/hit_objects/slider/event.rs :: fn new_repeat_point'],
     explanation='see level_text; per-obligation statements in coverage.samples[].states',
     trusted_base=COMMON_TRUST, assumptions=['total_dist >= 0 or NaN-free as produced by Curve::dist()'],
-    not_decided=['tick placement for arbitrary real parameters', 'slider_events / juicestream_events parameter derivation in encode.rs', 'termination'],
+    not_decided=['chronological ORDER of the ticks within one span (the Verus contract on generate_ticks pins kinds, tags, repeat position and count only; seed C20-final-forward-span-ticks-not-reversed is missed)', 'tick placement for arbitrary real parameters', 'slider_events / juicestream_events parameter derivation in encode.rs', 'termination'],
 )
 
 PROPS['C14'] = dict(
